@@ -16,7 +16,7 @@ ASSUMPTIONS = ["models <= 8 tasks, <= 4 components"]
 LEVEL_TEXT = "Seeded exploration; component/task state relation evaluated on the live state at every phase of every step and on the state logs."
 LEVEL_NOTE = "Trusted: harness observers; sampling evidence only."
 PROBES = ["component_without_task", "component_multi_task", "component_mixed_progress", "component_finished",
-          "component_working_hidden_by_absence", "remove_runs", "reporting_calls_checked", "appended_project_checked"]
+          "component_working_hidden_by_absence", "remove_runs", "reporting_calls_checked", "appended_project_checked", "backward_runs"]
 
 
 def budget(tier):
@@ -34,6 +34,8 @@ def gen(rng, tier):
     spec = C.gen_edit(rng, C.maybe_from_json(rng, C.maybe_history(rng, C.forward_spec(rng, tier, focus), 0.3)))
     if spec.get("history") is None and not spec["model"].get("comp_ctor_tasks") and rng.random() < 0.08:
         spec["appended"] = rng.randint(1, 8)
+    elif spec.get("history") is None and not spec.get("edit") and rng.random() < 0.1:
+        spec["backward"] = {"due": rng.random() < 0.3, "reverse": rng.random() < 0.7}
     if rng.random() < 0.1 and not any(t.get("nf") for t in spec["model"]["tasks"]):
         spec["model"]["comp_ctor_tasks"] = True  # BaseComponent(targeted_task_list=[...]): the tasks do not know their component
         if spec.get("history") is None and rng.random() < 0.6:
@@ -46,6 +48,10 @@ def gen(rng, tier):
 
 
 def extra_candidates(spec):
+    if spec.get("backward") is not None:
+        c = dict(spec)
+        c.pop("backward")
+        yield c
     if spec.get("appended") is not None:
         c = dict(spec)
         c.pop("appended")
@@ -172,6 +178,24 @@ def check_reporting_is_read_only(res, tr):
 
 
 def run(spec):
+    if spec.get("backward") is not None and spec.get("history") is None:
+        from .. import build as B, scen
+        scen.setup_run(spec.get("seed", 0))
+        tr = scen.Trace()
+        tr.model, tr.cfg = spec["model"], spec["cfg"]
+        tr.built = B.build(spec["model"], spec.get("ranks"))
+        tr.project = tr.built.project
+        tr.absence = set(spec["cfg"].get("absence", []))
+        tr.rec, tr.out = scen.simulate(tr.project, spec["cfg"], want_snap=False, backward=spec["backward"])
+        tr.ix = tr.rec.ix
+        tr.history, tr.log_offset = None, 0
+        res = C.base_result(tr)
+        res.count("backward_runs")
+        if tr.out.ok:
+            # the logs of a backward simulation (reversed or not): entry by entry the same relation
+            check_edited_logs(res, tr, [], op="simulate")
+        res.nontrivial = tr.rec.n_recorded >= 2
+        return C.finish(res, tr)
     tr = C.run_forward(spec)
     res = C.base_result(tr)
     res.nontrivial = bool(check_trace(res, tr))
